@@ -83,12 +83,15 @@ Definition is_fully_connected_without (g : adj) (w : nat) : option bool :=
 (* ---- degrees, neighbours, linear ---------------------------------------- *)
 Definition degrees (g : adj) : list nat := map (@length nat) g.
 
+(* degree profile of a path (no degree 0, none above 2, exactly two of degree 1), then
+   `return self.is_fully_connected()` (never raises here: at least two qudits) *)
 Definition is_linear (g : adj) : bool :=
   if Nat.ltb (length g) 2 then false
   else
     let ds := degrees g in
     forallb (fun d => negb (Nat.eqb d 0) && Nat.leb d 2) ds
-    && Nat.eqb (length (filter (Nat.eqb 1) ds)) 2.
+    && Nat.eqb (length (filter (Nat.eqb 1) ds)) 2
+    && match is_fully_connected g with Some b => b | None => false end.
 
 (* ---- all_pairs_shortest_path (Floyd-Warshall) ---------------------------- *)
 (* weights: None = inf, Some w with integer w (the harness uses integer weights
@@ -229,10 +232,10 @@ Definition get_subgraph (g : adj) (loc : list nat) (ren : option (list (nat * na
   if negb (Nat.eqb (length ren) (length loc)) then None else
   if negb (nodupb keys && forallb (fun k => mem k loc) keys) then None else
   match loc with
-  | [] => None    (* min() of an empty sequence raises *)
+  | [] => None    (* CouplingGraph([], 0) raises: the inferred size is 1 *)
   | _ =>
-    if negb (Nat.eqb (fold_right Nat.min (hd 0 vals) vals) 0
-             && Nat.eqb (fold_right Nat.max 0 vals) (length loc - 1)) then None else
+    (* sorted(renumbering.values()) != list(range(len(location))) -> ValueError *)
+    if negb (list_eqb (sort vals) (seq 0 (length loc))) then None else
     let es := flat_map (fun qi => flat_map (fun nb =>
                 match assoc qi ren, assoc nb ren with
                 | Some a, Some b => [norm_edge (a, b)]
